@@ -3,7 +3,7 @@ import json, os
 import vlib
 
 
-ENGINE_FILES = ["zz_verif_engine_test.go", "zz_verif_engine_monitor_test.go", "zz_verif_engine_replay_test.go"]
+ENGINE_FILES = ["zz_verif_engine_test.go", "zz_verif_engine_monitor_test.go", "zz_verif_engine_replay_test.go", "zz_verif_parked_test.go"]
 
 
 def classify_engine(op, impl):
@@ -204,3 +204,21 @@ def replay_engine(prop, path):
         return 1 if (dis or n) else 0
     finally:
         ctx.cleanup()
+
+
+def run_parked(ctx, prefixes):
+    """one forced schedule at the shard mutex: a LOCK waits for the mutex while the key's idle record is recycled (mode `parked`, monitors only)"""
+    exe = ctx.build_harness("server", only=ENGINE_FILES)
+    if not exe:
+        return
+    outdir = ctx.run_harness(exe, "parked", 12 if ctx.tier == "quick" else 300, extra={"VERIF_FASTPARK": "1"}, timeout=600)
+    if not outdir:
+        return
+    read_monitor(ctx, outdir, "parked", prefixes)
+    sp = os.path.join(outdir, "parked.stats")
+    if os.path.exists(sp):
+        dist = ctx.cov.setdefault("distribution", {})
+        for k, v in json.load(open(sp)).items():
+            dist[k] = dist.get(k, 0) + v
+            if k == "parked-case":
+                ctx.cov["evaluations"] += v
